@@ -127,7 +127,9 @@ def plan_server(op: dict, doc: dict, c: inst.Canary, prop: str, literal_enums: b
             b.update(media_type=mt, content_hex=json.dumps(J).encode().hex(), J=J, source="json")
         elif rs["source"] == "text":
             text = c.string()
-            b.update(media_type=rs["media_type"] + r.choice(["", "; charset=utf-8"]), content_hex=text.encode().hex(), J=text, source="text")
+            cs_ = r.choice(["", "; charset=utf-8", "; charset=iso-8859-1", "; charset=utf-16"]) if ";" not in rs["media_type"] else ""
+            enc = {"; charset=iso-8859-1": "latin-1", "; charset=utf-16": "utf-16"}.get(cs_, "utf-8")
+            b.update(media_type=rs["media_type"] + cs_, content_hex=text.encode(enc).hex(), J=text, source="text")
         else:
             data = c.bytes_()
             b.update(media_type=rs["media_type"], content_hex=data.hex(), J={"__bytes__": data.hex()}, source="bytes")
